@@ -268,6 +268,21 @@ func Forall(vars []Term, body Term) Term {
 	return Term{sb.String(), SBool}
 }
 
+// ForallPat: universally quantified fact with an explicit trigger
+func ForallPat(vars []Term, body Term, pat Term) Term {
+	var sb strings.Builder
+	sb.WriteString("(forall (")
+	for _, v := range vars {
+		fmt.Fprintf(&sb, "(%s %s)", v.S, v.Sort)
+	}
+	sb.WriteString(") (! ")
+	sb.WriteString(body.S)
+	sb.WriteString(" :pattern (")
+	sb.WriteString(pat.S)
+	sb.WriteString(")))")
+	return Term{sb.String(), SBool}
+}
+
 func Exists(vars []Term, body Term) Term {
 	if len(vars) == 0 {
 		return body
